@@ -20,7 +20,7 @@ FAMILY = r"^startup\.|^setup\.fault"
 FAULTS = ["none", "cover_start", "cover_end", "unsorted", "dup_across_files", "no_start", "no_stop", "no_dt", "wrong_side",
           "rel_outside_early", "rel_after", "rel_at_stop", "no_position", "missing_config", "missing_grid", "missing_forcing",
           "missing_release", "missing_warm", "no_section_time", "no_section_forcing", "no_section_tracker", "no_section_release",
-          "no_section_output", "subgrid_inverted", "subgrid_too_large"]
+          "no_section_output", "subgrid_inverted", "subgrid_too_large", "release_name_empty", "no_position_columns", "subgrid_negative_inverted"]
 
 
 def sim(sc, t):
@@ -66,6 +66,8 @@ def apply_fault(sc, fault, rng):
             r["t"] = sc["stop"]
     elif fault == "no_position":
         sc["release_cols"] = ["mult", "release_time", "Y", "Z", "farm", "src"]
+    elif fault == "no_position_columns":         # neither X / Y nor lon / lat
+        sc["release_cols"] = ["mult", "release_time", "Z", "farm", "src"]
     elif fault == "missing_config":
         sc["rm"].append("config")
     elif fault == "missing_grid":
@@ -74,12 +76,16 @@ def apply_fault(sc, fault, rng):
         sc["cfg_set"].append(("forcing", "filename", "no_such_forcing_*.nc"))
     elif fault == "missing_release":
         sc["cfg_set"].append(("release", "release_file", "no_such_release.rls"))
+    elif fault == "release_name_empty":          # the release file is named "" (a mandatory file that does not exist)
+        sc["cfg_set"].append(("release", "release_file", ""))
     elif fault == "missing_warm":
         sc["cfg_set"].append(("warm_start", "filename", "no_such_restart.nc"))
     elif fault.startswith("no_section_"):
         sc["cfg_del"].append((fault[len("no_section_"):], None))
     elif fault == "subgrid_inverted":
         sc["subgrid"] = [5, 3, 1, 4]
+    elif fault == "subgrid_negative_inverted":   # limits counted from the upper end that cross over
+        sc["subgrid"] = [sc["imax"] - 3, -(sc["imax"] - 2), 1, -2]
     elif fault == "subgrid_too_large":
         sc["subgrid"] = [1, sc["imax"], 1, sc["jmax"] - 1]
     return sc
@@ -139,7 +145,7 @@ def fault_trace(sc):
             else:
                 conf[sec].pop(key, None)
         for sec, key, val in sc["cfg_set"]:
-            conf.setdefault(sec, {})[key] = os.path.join(work, val)
+            conf.setdefault(sec, {})[key] = os.path.join(work, val) if val else ""
         cpath = os.path.join(work, "ladim.yaml")
         if "config" not in sc["rm"]:
             with open(cpath, "w") as f:
@@ -188,6 +194,8 @@ def scenarios(tier, seed):
                         if f == "dup_across_files" and len(base["ftimes"]) < 2:
                             continue
                         sc = apply_fault(base, f, rng)
+                        if f == "none" and rng.random() < 0.5:      # a legal sub-rectangle given by limits counted from the upper end is not a fault
+                            sc["subgrid"] = rng.choice([[1, -1, 1, -1], [2, -2, 1, -2], [1, -2, 2, -1]])
                         sc["cls"] = dict(fault=f, rev=rev, multifile=ncut > 0, cont=cont)
                         out.append(sc)
     return out
